@@ -109,7 +109,10 @@ def read_tile(base, p, fmt):
         return a.astype(a.dtype.newbyteorder("="))[::-1]
     from PIL import Image as PI
 
-    return np.asarray(PI.open(path))
+    a = np.asarray(PI.open(path))
+    if a.ndim == 2:  # an 8-bit greyscale tile: the same colour in the three channels, every pixel defined
+        a = np.repeat(a[..., None], 3, axis=-1)
+    return a
 
 
 def list_tiles(base, fmt):
